@@ -12,7 +12,8 @@
 (*   perdata  [d, status, pass, fail, skip]      structured json / yaml    *)
 (*   perpair  [r, d, file, rules]                summary table, print-json,*)
 (*                                               plain -o json, junit      *)
-(*   nresults number of SARIF results                                      *)
+(*   nresults number of SARIF results; sres / arts / regions_wf: results   *)
+(*            per (data file, rule), artifacts, 1-based regions            *)
 (* The specification derives the same from Denote on every (rules file,    *)
 (* merged document) pair and from the GuardCli driver machine; the line is *)
 (* accepted when they coincide.  Because every mode of one input set is    *)
